@@ -1672,11 +1672,25 @@ func Reverseaddr(ip net.IP) []byte {
 	return buf
 }
 
+// lowerASCII returns a copy of b with the ASCII letters lower-cased. DNS names compare
+// case-insensitively for ASCII letters only (RFC 4343), which is also all the server folds in a
+// query name; bytes.ToLower would fold (and re-encode) anything that reads as UTF-8.
+func lowerASCII(b []byte) []byte {
+	out := make([]byte, len(b))
+	for i, c := range b {
+		if c >= 'A' && c <= 'Z' {
+			c += 'a' - 'A'
+		}
+		out[i] = c
+	}
+	return out
+}
+
 func makedomainkey(domain []byte, lo Loc, codec *Codec) []byte {
 	k := new(bytes.Buffer) // BUG scale
 	k.Grow(len(domain) + 2)
 
-	domain = bytes.ToLower(domain)
+	domain = lowerASCII(domain)
 
 	if codec.Features.UseV2Keys {
 		k.WriteString(ResourceRecordsKeyMarker)
@@ -1701,7 +1715,7 @@ func makemapkey(mapID, domain []byte, codec *Codec) []byte {
 		suffix = "*"
 	}
 
-	domain = bytes.ToLower(domain)
+	domain = lowerASCII(domain)
 
 	if codec.Features.UseV2Keys {
 		putreverseddom(k, domain)
